@@ -10,6 +10,8 @@ import (
 	"errors"
 	"testing"
 
+	"github.com/truora/minidyn/types"
+
 	"github.com/aws/aws-sdk-go-v2/aws"
 	"github.com/aws/aws-sdk-go-v2/service/dynamodb"
 	"github.com/aws/smithy-go"
@@ -60,3 +62,15 @@ func TestC16Placeholders(t *testing.T) {
 	}
 }
 
+
+// Blocked: language TestErrorHandling / TestUpdateEvalSyntaxError assert the error message
+// "index operator not supported for ..." for a scalar at the root of a document path.
+func TestC06PathIntoRootScalarIsMissing(t *testing.T) {
+	item := map[string]*types.Item{"s": s("x")}
+	for _, e := range []string{"attribute_not_exists(s.k)", "s[0] <> :v"} {
+		r, err, c := match(e, item, map[string]*types.Item{":v": s("x")}, nil)
+		if c != nil || err != nil || !r {
+			t.Errorf("%q: res=%v err=%v crash=%v, want true", e, r, err, c)
+		}
+	}
+}
